@@ -134,6 +134,14 @@ func verifyFunc(prog *Prog, sp *FuncSpec) (res *FuncResult) {
 				st.assume(mk(sortBool, "(>= %s 0)", n))
 			}
 			st.assume(or(eq(t, Term{"0", sortInt}), sel(fv.allocSet(st, s), t, sortBool)))
+			// the object it points to is a well-typed Go value (field ranges, slice lengths)
+			if pt, ok := fv.subst(v.Type()).Underlying().(*types.Pointer); ok {
+				tmp := &State{vars: st.vars, heaps: st.heaps}
+				fv.assumeTyped(tmp, sel(fv.heap(st, s), t, s.Elem), pt.Elem())
+				for _, a := range tmp.pc {
+					st.assume(implies(not(eq(t, Term{"0", sortInt})), a))
+				}
+			}
 		}
 		if s.Kind == KRef && s.Key != nil {
 			st.assume(mk(sortBool, "(>= %s 0)", n))
